@@ -254,7 +254,10 @@ def execute_threads(scen):
     h = Harness(scen["spec"], scen["regs"])
     for c in scen["prewarm"]:
         h.w.call("f", c)
-    sim = Sim(trace_world=True, step_cap=600_000, monitor_codes=codes)
+    from ..trace import HOT_FUNCS
+
+    sim = Sim(trace_world=True, step_cap=600_000, monitor_codes=codes,
+              opcode_funcs=HOT_FUNCS if scen.get("opcode") else None)
     sim.monitor_tagged = True
     n = len(scen["threads"])
     sched = Scheduler(sim, n, strategy=strategy, script=script)
